@@ -62,6 +62,8 @@ var extElems = []struct {
 	{9999, 5, ipfix.Boolean}, {9999, 6, ipfix.Int64}, {9999, 7, ipfix.MacAddress}, {31337, 100, ipfix.Uint8},
 	// no IANA element of the built-in table is signed8 / signed16 / signed32 / float32
 	{9999, 8, ipfix.Int8}, {9999, 9, ipfix.Int16}, {9999, 10, ipfix.Int32}, {9999, 11, ipfix.Float32},
+	// IANA-space elements only an installed ipfix.elements defines (the way an extension reaches the NetFlow v9 decoder)
+	{0, 500, ipfix.Uint32}, {0, 501, ipfix.String}, {0, 502, ipfix.Int8},
 }
 
 var (
